@@ -38,7 +38,7 @@ func init() {
 			{ID: "C17-two-roots", Desc: "privilege level loses its previous-priv link", Rule: "C17/tree",
 				Edits: []Edit{{File: "assets/platforms/arista_eos.yaml", Old: "previous-priv: 'privilege-exec'", New: "previous-priv:"}}},
 			{ID: "C17-bad-regex", Desc: "pattern not RE2-compilable (lookahead)", Rule: "C17/patterns",
-				Edits: []Edit{{File: "assets/platforms/nokia_srl.yaml", Old: `pattern: '`, New: `pattern: '(?!x)`}}},
+				Edits: []Edit{{File: "assets/platforms/cisco_iosxe.yaml", Old: `pattern: '(?im)^[\w.\-@/:]{1,63}>$'`, New: `pattern: '(?!x)(?im)^[\w.\-@/:]{1,63}>$'`}}},
 			{ID: "C17-merge-cross", Desc: "variant merge copies on-close into on-open", Rule: "C17/merge",
 				Edits: []Edit{{File: "platform/definition.go", Old: "p.OnOpen = v.OnOpen", New: "p.OnOpen = v.OnClose"}}},
 			{ID: "C17-merge-drop", Desc: "variant merge forgets default desired level", Rule: "C17/merge",
